@@ -1,6 +1,7 @@
 package main
 
 import (
+	"bytes"
 	"context"
 	"encoding/json"
 	"errors"
@@ -264,7 +265,21 @@ func gateNil(out *rec) {
 	tCtx := reflect.TypeOf((*context.Context)(nil)).Elem()
 	tErr := reflect.TypeOf((*error)(nil)).Elem()
 	tStr := reflect.TypeOf((*fmt.Stringer)(nil)).Elem()
-	for i := 0; i < rt.NumMethod(); i++ {
+	// the aftermath of a no-op: an event logged AFTER the filtered call, built from fresh zerolog.Arr() / zerolog.Dict()
+	// values, must be byte-identical to the same event logged before anything was filtered (what a filtered call was
+	// handed goes back to its pool as if it had never been used)
+	var pw bytes.Buffer
+	probeLg := zerolog.New(&pw)
+	probe := func() string {
+		pw.Reset()
+		probeLg.Info().Array("a", zerolog.Arr().Str("x").Int(0)).Dict("d", zerolog.Dict().Str("y", "z")).
+			Array("e", zerolog.Arr()).Dict("f", zerolog.Dict()).Msg("probe")
+		return pw.String()
+	}
+	ref := probe()
+	for i := 0; i < 2*rt.NumMethod(); i++ {
+		variant := i / rt.NumMethod() // 0: recording user types; 1: the library's own pooled builders, not empty
+		i := i % rt.NumMethod()
 		name := rt.Method(i).Name
 		m := rv.Method(i)
 		mt := m.Type()
@@ -280,6 +295,9 @@ func gateNil(out *rec) {
 				args = append(args, reflect.ValueOf(&o).Elem())
 			case pt == tArr:
 				var o zerolog.LogArrayMarshaler = recArr{&calls}
+				if variant == 1 {
+					o = zerolog.Arr().Str("stale").Int(-1)
+				}
 				args = append(args, reflect.ValueOf(&o).Elem())
 			case pt == tCtx:
 				c := context.Background()
@@ -308,7 +326,11 @@ func gateNil(out *rec) {
 				})
 				args = append(args, fn)
 			case pt == reflect.TypeOf((*zerolog.Event)(nil)):
-				args = append(args, reflect.ValueOf(zerolog.Dict()))
+				d := zerolog.Dict()
+				if variant == 1 {
+					d = d.Str("stale", "1").Int("n", -1)
+				}
+				args = append(args, reflect.ValueOf(d))
 			case pt.Kind() == reflect.Interface:
 				x := interface{}(map[string]interface{}{"a": 1})
 				if name == "Fields" {
@@ -340,7 +362,8 @@ func gateNil(out *rec) {
 				}
 			}
 		}()
-		out.emit(map[string]interface{}{"a": "Nil", "m": name, "calls": calls + w.n - before, "panic": pan, "neutral": neutral})
+		ncalls := calls + w.n - before
+		out.emit(map[string]interface{}{"a": "Nil", "m": name, "variant": variant, "calls": ncalls, "panic": pan, "neutral": neutral, "after": probe() == ref})
 	}
 }
 
